@@ -164,6 +164,46 @@ def run(ctx):
                    "guard(s) leading to UnderSampling: %s; remove_protection_of_*_packet does split_at_mut(4) and "
                    "sample[..16] without its own check, so a smaller threshold is an out-of-bounds panic on an "
                    "unauthenticated datagram" % [(x[0], x[1]) for x in r])
+    # ---------------------------------------------------------------- R6: dispatcher covers what the decoder admits
+    ctx.rule("R6", "every frame kind that FrameType::belongs_to admits into a packet type has a non-panicking arm in that "
+                   "space's frame dispatcher (the Initial and Handshake dispatchers end in `_ => unreachable!()`)")
+    FT2FRAME = {"ConnectionClose": "Close", "ResetStream": "StreamCtl", "StopSending": "StreamCtl", "MaxStreamData": "StreamCtl",
+                "MaxStreams": "StreamCtl", "StreamDataBlocked": "StreamCtl", "StreamsBlocked": "StreamCtl"}
+    bt = ctx.anchor("R6", "<qbase::frame::FrameType as qbase::frame::FrameFeature>::belongs_to")
+    frame_variants = set((variant_names(prog, "qbase::frame::Frame") or {}).values())
+    if bt:
+        tb = arm_table(prog, bt, "qbase::frame::FrameType") or {}
+        ctx.floor("R6", "FrameType arms in belongs_to", len(tb), 26)
+        admits = {}
+        for vn, arm in tb.items():
+            ls = set()
+            for x in arm["blocks"]:
+                for st in bt.stmts(x):
+                    if st[0] == "=":
+                        for o in rvalue_operands(st[2]):
+                            pl = op_place(o)
+                            if pl and len(pl) == 1 and bt.local_name(pl[0]) in ("i", "h", "o", "l"):
+                                ls.add(bt.local_name(pl[0]))
+            admits[vn] = ls
+        # the meaning of the four flags: each is computed from a comparison with the packet-type constant of that name
+        ctx.stats["R6.belongs_to"] = {k: "".join(sorted(v)) for k, v in sorted(admits.items())}
+        for sp, letter in (("initial", "i"), ("handshake", "h"), ("data", "l")):
+            db = ctx.anchor("R6", "qconnection::space::%s::frame_dispathcer::{closure#0}" % sp)
+            if not db:
+                continue
+            t3 = arm_table(prog, db, "qbase::frame::Frame") or {}
+            okarms = set(vn for vn, arm in t3.items() if any(db.term(x)["t"] == "ret" for x in db.reachable_from(arm["target"])))
+            for ft, ls in sorted(admits.items()):
+                letters = {letter, "o"} if sp == "data" else {letter}
+                if not (ls & letters):
+                    continue
+                fv = FT2FRAME.get(ft, ft)
+                if fv not in frame_variants:
+                    ctx.ob("R6", "%s|FrameType::%s maps to a Frame variant" % (sp, ft), False, bt.where(), "no Frame variant named %s (mapping table out of date): failing closed" % fv)
+                    continue
+                ctx.ob("R6", "%s dispatcher handles %s" % (sp, ft), fv in okarms, db.where(),
+                       "belongs_to admits %s frames into %s packets; the dispatcher arm for Frame::%s %s" % (
+                           ft, sp, fv, "returns normally" if fv in okarms else "is the `unreachable!` arm: a peer sending this frame panics the receive task"))
     # ---------------------------------------------------------------- R4
     fr = prog.find(r"<impl core::convert::From<qbase::frame::error::Error> for qbase::error::QuicError>::from$")
     ctx.floor("R4", "From<frame::Error> for QuicError", len(fr), 1)
